@@ -11,7 +11,7 @@ import math
 
 import numpy as np
 
-UNIT_TIMEOUT = 900.0
+UNIT_TIMEOUT = 3000.0
 NAMED = ['default', 'Cstyle', 'snake', 'snakeCstyle', 'Fstyle', 'snakeFstyle']
 # class -> (dim, sites per unit cell, extra named orderings, tuple orderings)
 STD1 = [['standard', [True], [0]]]
@@ -44,7 +44,7 @@ def orderings(cls, wrap, part, tier):
         return ['Cstyle'] + [o for o in CLASSES[cls][3] if o[0] == 'grouped' and len(o) == 2 and len(o[1]) == 1]
     if part == 'multi' and tier == 'quick':
         return ['default'] + ([['perm', 1]] if kind is None else [])
-    if part == 'multi' or (part == 'coup' and tier == 'quick'):
+    if part == 'multi' or (part == 'coup' and (tier == 'quick' or kind == 'irregular')):
         return ['default', ['perm', 1]] + (['Fstyle'] if kind is None or part == 'multi' else [])
     tuples = [] if kind == 'species' else CLASSES[cls][3]  # (its ordering() takes names only for a SimpleLattice)
     return NAMED + CLASSES[cls][2] + tuples + [['perm', k] for k in range(3)]
@@ -77,7 +77,7 @@ def sizes(cls, tier):
 
 def wraps(cls, Ls, tier, part):
     """Wrapper lattices built on top of the regular one: None, multi-species, irregular, helical."""
-    dim, Lu = CLASSES[cls][:2]
+    Lu = CLASSES[cls][1]
     out = [None]
     if cls in ('Chain', 'Square', 'Honeycomb'):
         out.append(dict(kind='species', n=2))
@@ -127,7 +127,7 @@ def build(spec):
     from tenpy.models import lattice as tl
     from tenpy.networks.site import SpinHalfSite
     cls, Ls, order, wrap = spec['cls'], spec['Ls'], spec['order'], spec['wrap']
-    dim, Lu = CLASSES[cls][:2]
+    Lu = CLASSES[cls][1]
     kind = wrap['kind'] if wrap else None
     if kind == 'helical':  # needs real sites (it looks at the charge info)
         sites = [SpinHalfSite(conserve=None) for _ in range(Lu)]
@@ -319,11 +319,8 @@ class Ctx:
 
 
 def spec_key(spec):
-    """Stable class of a lattice spec for violation keys: lattice class, wrapper, finite or not."""
-    w = spec['wrap']['kind'] if spec['wrap'] else 'plain'
-    if w == 'irregular':
-        w += '-' + '+'.join(k for k in ('remove', 'add') if spec['wrap'].get(k))
-    return '%s:%s:%s' % (spec['cls'], w, 'finite' if spec['bc_MPS'] == 'finite' else 'nonfinite')
+    """Stable class of a lattice spec for violation keys: wrapper, finite or not (class, size, ... are in `what`)."""
+    return '%s:%s' % (spec['wrap']['kind'] if spec['wrap'] else 'plain', 'finite' if spec['bc_MPS'] == 'finite' else 'nonfinite')
 
 
 # ---------------------------------------------------------------- checks (each returns a list of (key, what))
@@ -368,9 +365,13 @@ def check_maps(ctx):
     return bad, n
 
 
-def _lat_shape(ctx, u):
-    drop_u = u is not None or (ctx.spec['cls'] in SIMPLE and ctx.ref.kind is None)
-    return ctx.ref.Ls if drop_u else ctx.ref.Ls + (ctx.ref.Lu,)
+def gather(arr, coords, shp):
+    """The array B of shape `shp` with B[..., j, ...] = arr[..., *coords[axis][j], ...] (axes with coords None are kept)."""
+    index = []
+    for a, (c, d) in enumerate(zip(coords, shp)):
+        cols = np.arange(d)[:, None] if c is None else np.asarray(c)
+        index += [col.reshape([-1 if b == a else 1 for b in range(len(shp))]) for col in cols.T]
+    return arr[tuple(index)]
 
 
 def check_values(ctx, seed):
@@ -386,10 +387,10 @@ def check_values(ctx, seed):
     for shp, axes, u in cases:
         n += 1
         A = rng.permutation(int(np.prod(shp))).reshape(shp)
-        js = [j for j, c in enumerate(ref.sites) if u is None or c[-1] == u]
-        latshape = _lat_shape(ctx, u)
-        pos = [(c[:len(latshape)], k) for k, c in enumerate(ref.sites[j] for j in js)]
-        axs = sorted(a % A.ndim for a in ([axes] if isinstance(axes, int) else axes))
+        drop_u = u is not None or (ctx.spec['cls'] in SIMPLE and ref.kind is None)  # SimpleLattice: u=None means u=0
+        latshape = ref.Ls if drop_u else ref.Ls + (ref.Lu,)
+        cs = [c[:len(latshape)] for c in ref.sites if u is None or c[-1] == u]
+        axs = [a % A.ndim for a in ([axes] if isinstance(axes, int) else axes)]
         try:
             got = lat.mps2lat_values(A, axes, u)
         except NotImplementedError:
@@ -399,18 +400,8 @@ def check_values(ctx, seed):
         except Exception as e:  # noqa: BLE001
             bad.append(('mps2lat_values:%s' % type(e).__name__, 'mps2lat_values(A%s, axes=%s, u=%s): %s: %s' % (shp, axes, u, type(e).__name__, e)))
             continue
-        exp_shape = []
-        for a, d in enumerate(shp):
-            exp_shape += list(latshape) if a in axs else [d]
-        ok = list(got.shape) == exp_shape
-        if ok:  # compare entry by entry at the coordinates of existing sites
-            for combo in itertools.product(*[pos if a in axs else [((k,), k) for k in range(d)] for a, d in enumerate(shp)]):
-                gi = tuple(x for c, _ in combo for x in c)
-                ai = tuple(k for _, k in combo)
-                if got[gi] != A[ai]:
-                    ok = False
-                    break
-        if not ok:
+        exp_shape = [x for a, d in enumerate(shp) for x in (latshape if a in axs else [d])]
+        if list(got.shape) != exp_shape or not np.array_equal(gather(got, [cs if a in axs else None for a in range(A.ndim)], shp), A):
             bad.append(('mps2lat_values:misplaced', 'mps2lat_values(A%s, axes=%s, u=%s): shape %s (expected %s) or value not at the coordinates of its site' % (shp, axes, u, got.shape, exp_shape)))
     return bad, n
 
@@ -427,10 +418,11 @@ def check_values_masked(ctx, seed):
     xs = [c[0] for c in ref.sites]
     for inds, include_u, two in itertools.product(subsets, (None, True, False), (False, True)):
         js = list(range(N)) if inds is None else inds
-        tag = '%s-unit-cell:%s' % ('inside' if all(0 <= j < N for j in js) else 'outside', 'x-ordered' if xs == sorted(xs) else 'x-unordered')
-        if not (include_u if include_u is not None else ref.Lu > 1) and len({ref.coord(j)[-1] for j in js}) > 1:
+        with_u = include_u if include_u is not None else ref.Lu > 1  # documented default
+        if not with_u and len({ref.coord(j)[-1] for j in js}) > 1:
             continue  # without the u axis the coordinates of different u collide
         n += 1
+        tag = '%s-unit-cell:%s' % ('inside' if all(0 <= j < N for j in js) else 'outside', 'x-ordered' if xs == sorted(xs) else 'x-unordered')
         arg = None if inds is None else np.array(inds)
         if two:
             A = rng.permutation(len(js) * 2 * len(js)).reshape(len(js), 2, len(js))
@@ -440,17 +432,14 @@ def check_values_masked(ctx, seed):
             call = dict(axes=-1, mps_inds=arg, include_u=include_u)
         try:
             got = lat.mps2lat_values_masked(A, **call)
-        except Exception as e:  # noqa: BLE001
-            bad.append(('mps2lat_values_masked:%s:%s' % (tag, type(e).__name__), 'mps2lat_values_masked(%s): %s: %s' % (call, type(e).__name__, e)))
-            continue
-        cs = [ref.coord(j) if (include_u if include_u is not None else ref.Lu > 1) else ref.coord(j)[:-1] for j in js]
-        ok = got.count() == A.size
-        if ok and two:
-            ok = all(got[ca + (m,) + cb] == A[a, m, b] for a, ca in enumerate(cs) for b, cb in enumerate(cs) for m in range(2))
-        elif ok:
-            ok = all(got[c] == A[a] for a, c in enumerate(cs))
+            cs = [ref.coord(j) if with_u else ref.coord(j)[:-1] for j in js]  # (negative x_0 index from the end)
+            coords = [cs, None, cs] if two else [cs]
+            ok = got.count() == A.size and np.array_equal(gather(got.data, coords, A.shape), A) and not gather(np.ma.getmaskarray(got), coords, A.shape).any()
+            what = '%d unmasked entries for %d values, or a value not at the coordinates of its site' % (got.count(), A.size)
+        except IndexError as e:
+            ok, what = False, 'IndexError: %s' % e
         if not ok:
-            bad.append(('mps2lat_values_masked:%s:misplaced' % tag, 'mps2lat_values_masked(%s): %d unmasked of %d or value not at the coordinates of its site' % (call, got.count(), A.size)))
+            bad.append(('mps2lat_values_masked:%s' % tag, 'mps2lat_values_masked(%s): %s' % (call, what)))
     return bad, n
 
 
@@ -707,16 +696,25 @@ def run_unit(unit):
     return dict(evaluations=ev, nontrivial_count=nontriv, violations=viol, samples=samples, outcomes=sorted(outcomes), extra={'lattices_' + part: nlat})
 
 
+def selfcheck(tier, seed, label):
+    unit = ('coup', 'Square', [2, 2], 'quick', seed, 0)
+    return None if run_unit(unit) == run_unit(unit) else 'two runs of %r differ' % (unit,)
+
+
 def replay(case):
     spec, part = case['spec'], case['part']
-    ctx = Ctx(spec)
-    if part == 'pairs':
-        bad = check_pairs(ctx)[0] + (check_species_pairs(ctx)[0] if ctx.ref.kind == 'species' else [])
-    elif part == 'maps':
-        seed = case.get('seed', 0)
-        bad = check_maps(ctx)[0] + check_values(ctx, seed)[0] + check_values_masked(ctx, seed)[0]
-    elif part == 'coup':
-        bad = check_coupling(ctx, case['u1'], case['u2'], case['dx'], case['seed'])[0]
+    seed = case.get('seed', 0)
+    try:
+        ctx = Ctx(spec)
+    except Exception as e:  # noqa: BLE001
+        bad = [('construct:%s' % type(e).__name__, 'constructing the lattice: %s: %s' % (type(e).__name__, e))]
     else:
-        bad = check_multi(ctx, tuple(case['us']), case['dxs'], case['seed'])[0]
+        if part == 'pairs':
+            bad = check_pairs(ctx)[0] + (check_species_pairs(ctx)[0] if ctx.ref.kind == 'species' else [])
+        elif part == 'maps':
+            bad = check_maps(ctx)[0] + check_values(ctx, seed)[0] + check_values_masked(ctx, seed)[0]
+        elif part == 'coup':
+            bad = check_coupling(ctx, case['u1'], case['u2'], case['dx'], seed)[0]
+        else:
+            bad = check_multi(ctx, tuple(case['us']), case['dxs'], seed)[0]
     return dict(evaluations=1, violations=[dict(key='%s:%s' % (k, spec_key(spec)), what=w, case=case) for k, w in bad])
